@@ -8,6 +8,10 @@ import SmsVerif.Lemmas.Packet
 
 namespace SmsVerif
 
+theorem min_len_rem (v x : Bytes) (a : Nat) :
+    min v.length (({ rest := v ++ x, err := none, alloc := a } : Reader).remaining + 1) = v.length := by
+  simp only [Reader.remaining, List.length_append]; omega
+
 theorem upsert_fresh (m : TlvMap) (t : Nat) (v : Bytes) (h : ∀ x ∈ m, x.1 ≠ t) :
     m.upsert t v = m ++ [(t, v)] := by
   induction m with
@@ -88,7 +92,7 @@ theorem readTlvLoop_ser (order : TlvMap) (m : TlvMap) (a fuel : Nat)
       · rw [readTlvLoop]
         simp only [hrem, if_false]
         rw [hser, hhd]
-        simp only [htag, hlen, hval, upsert_fresh m t v (hm (t, v) (by simp))]
+        simp only [htag, hlen, min_len_rem, hval, upsert_fresh m t v (hm (t, v) (by simp))]
         first | (simpa [List.append_assoc] using h1) | exact h2
 
 /-- `ReadTLVs1` / `ReadOptions` on the serialisation of any emission order -/
@@ -212,7 +216,7 @@ theorem readTlvLoop_seq (seq : TlvMap) (m : TlvMap) (a fuel : Nat)
       · rw [readTlvLoop]
         simp only [hrem, if_false]
         rw [hser, hhd]
-        simp only [htag, hlen, hval]
+        simp only [htag, hlen, min_len_rem, hval]
         first | (simpa [upsertAll] using h1) | exact h2
 
 theorem parseOptionsLoop_seq (seq : TlvMap) (m : TlvMap) (fuel : Nat)
